@@ -442,6 +442,8 @@ impl<'a, W: 'static, R: 'static, T: 'static> RuntimeScope<'a, W, R, T> {
                                     return Err(RuntimeViolation::MaximumRecursion);
                                 }
                             }
+                            // a tail iteration is the beginning of a user-function call too
+                            rt.check_timeout()?;
                             args = new_args;
                         }
                         v => break Ok(v),
